@@ -145,6 +145,7 @@ def run_impl(specs, data_file, scheduler="batch", argv=(), failing_builds=(), se
     def exec_hook(self, run_id):
         with lock:
             obs.picks.append(run_id.benchmark.name)
+            obs.events.append(("pick", run_id.benchmark.name))
         return o_exec(self, run_id)
 
     def failed_hook(self, cmdline, rc, output):
